@@ -612,8 +612,11 @@ def window_scenarios():
                             for when in ("before-probe", "after-probe"):
                                 if (probe == "none" or disturb is None) and when == "after-probe":
                                     continue
-                                out.append({"buf": buf, "mode": mode, "blocked": blocked, "order": order, "probe": probe,
-                                            "disturb": disturb, "when": when})
+                                # the probe arrives in the same step as the last operation of the window, or 1..3 loop
+                                # iterations later (the flush task has run / the woken receivers have run / everything settled)
+                                for lag in ((0,) if probe == "none" else (0, 1, 2, 3)):
+                                    out.append({"buf": buf, "mode": mode, "blocked": blocked, "order": order, "probe": probe,
+                                                "disturb": disturb, "when": when, "lag": lag})
     return out
 
 
@@ -686,7 +689,10 @@ def run_window(sc):
                 tasks["r0"].cancel()
             elif sc["disturb"] == "timeout":
                 log("call", "x", "timeout", "r0")
-                cms["r0"].reschedule(loop.time() - 1)
+                try:
+                    cms["r0"].reschedule(loop.time() - 1)
+                except RuntimeError:  # r0 has already left its timeout block: nothing to disturb any more
+                    log("ret", "x", "timeout", "too-late")
 
         # ---- the window: no suspension point below unless a put has to wait (excluded by construction)
         k = 0
@@ -710,6 +716,8 @@ def run_window(sc):
                 log("ret", "c", "close")
         if sc["when"] == "before-probe":
             disturb()
+        for _ in range(sc.get("lag", 0)):
+            await asyncio.sleep(0)
         if sc["probe"] == "done":
             log("probe", "p", "done", bool(ch.done()))
         elif sc["probe"] in ("receive", "anext"):
@@ -732,11 +740,12 @@ def run_window(sc):
         # ---- end of the window
         for _ in range(12):
             await asyncio.sleep(0)
-        for who, t in tasks.items():
-            if not t.done():
-                outcome[who] = "stranded"
-                t.cancel()
+        stranded = [who for who, t in tasks.items() if not t.done()]
+        for who in stranded:
+            tasks[who].cancel()
         await asyncio.gather(*tasks.values(), return_exceptions=True)
+        for who in stranded:
+            outcome[who] = "stranded"
         if "close" in sc["order"]:
             async def late():
                 it = ch.__aiter__()
